@@ -72,6 +72,16 @@ pub(super) fn write_comment<W>(writer: &mut W, comment: &[u8]) -> io::Result<()>
 where
     W: Write,
 {
+    // A comment is written verbatim as one line: a line feed would end the line early (the rest
+    // would be read as another header record or as alignment data), and a trailing carriage
+    // return would be stripped with the line ending when the header is read back.
+    if comment.contains(&LINE_FEED) || comment.last() == Some(&b'\r') {
+        return Err(io::Error::new(
+            io::ErrorKind::InvalidInput,
+            "invalid comment",
+        ));
+    }
+
     write_prefix(writer)?;
     write_kind(writer, Kind::Comment)?;
     write_delimiter(writer)?;
@@ -99,4 +109,34 @@ where
     W: Write,
 {
     writer.write_all(&[LINE_FEED])
+}
+
+#[cfg(test)]
+mod tests {
+    use super::*;
+
+    #[test]
+    fn test_write_comment() -> io::Result<()> {
+        let mut buf = Vec::new();
+        write_comment(&mut buf, b"noodles\tsam \r x")?;
+        assert_eq!(buf, b"@CO\tnoodles\tsam \r x\n");
+
+        for comment in [
+            &b"a\nb"[..],
+            b"a\n",
+            b"\n",
+            b"a\r",
+            b"\r",
+            b"a\n@SQ\tSN:x\tLN:5",
+        ] {
+            buf.clear();
+            assert!(matches!(
+                write_comment(&mut buf, comment),
+                Err(e) if e.kind() == io::ErrorKind::InvalidInput
+            ));
+            assert!(buf.is_empty());
+        }
+
+        Ok(())
+    }
 }
